@@ -1229,9 +1229,23 @@ def emit_fn(f, udir, unit_props, recs, log_global):
         mend = match_close(mtext, src.mask, mm.end() - 1)
         sub = Src.__new__(Src)
         seg = mtext[mm.end():mend]
-        seg = re.sub(r"stringify!\(\s*\$%s\s*\)" % re.escape(mi["param"]), '"%s"' % mi["arg"], seg)
-        seg = seg.replace("$" + mi["param"], mi["arg"])
-        sub.path = src.path + "#" + mi["macro"] + "!(" + mi["arg"] + ")"
+        if mi.get("invocation"):
+            # the actual arguments are read from the macro's invocation in the real tree: `macro!(first_arg, ...)`
+            inv = mi["invocation"]
+            itext = open(os.path.join(REPO, inv["source"])).read()
+            im = re.search(r"(?m)^\s*%s!\(\s*%s\s*((?:,[^;]*)?)\)\s*;" % (re.escape(mi["macro"]), re.escape(inv["first"])), itext)
+            if not im:
+                raise AnchorLost("invocation %s!(%s, ..) not found in %s" % (mi["macro"], inv["first"], inv["source"]))
+            args = [inv["first"]] + [a.strip() for a in im.group(1).split(",")[1:]]
+            if len(args) != len(inv["order"]):
+                raise AnchorLost("invocation %s!(%s, ..): %d arguments, %d expected" % (mi["macro"], inv["first"], len(args), len(inv["order"])))
+            plist = list(zip(inv["order"], args))
+        else:
+            plist = list(mi["params"].items()) if mi.get("params") else [(mi["param"], mi["arg"])]
+        for (pn, pa) in plist:
+            seg = re.sub(r"stringify!\(\s*\$%s\s*\)" % re.escape(pn), '"%s"' % pa, seg)
+            seg = re.sub(r"\$%s\b" % re.escape(pn), pa, seg)
+        sub.path = src.path + "#" + mi["macro"] + "!(" + ", ".join(pa for _, pa in plist) + ")"
         sub.text = seg
         sub.mask = code_mask(seg)
         loc = sub.find_fn(f["name"], None, f.get("nth", 0), nested_in=None) if False else None
@@ -1411,8 +1425,41 @@ def emit_fn(f, udir, unit_props, recs, log_global):
     return emit_impl, text, rec
 
 
+def _macro_instance(src, mi):
+    """R-macroinst: text of a macro_rules! body with the macro's parameters substituted (arguments given in unit.toml or read from the real
+    invocation); returns a Src over the substituted text"""
+    mtext = src.text
+    mm = re.search(r"macro_rules!\s*%s\s*\{" % re.escape(mi["macro"]), mtext)
+    if not mm:
+        raise AnchorLost("macro not found: %s" % mi["macro"])
+    mend = match_close(mtext, src.mask, mm.end() - 1)
+    seg = mtext[mm.end():mend]
+    if mi.get("invocation"):
+        inv = mi["invocation"]
+        itext = open(os.path.join(REPO, inv["source"])).read()
+        im = re.search(r"(?m)^\s*%s!\(\s*%s\s*((?:,[^;]*)?)\)\s*;" % (re.escape(mi["macro"]), re.escape(inv["first"])), itext)
+        if not im:
+            raise AnchorLost("invocation %s!(%s, ..) not found in %s" % (mi["macro"], inv["first"], inv["source"]))
+        args = [inv["first"]] + [a.strip() for a in im.group(1).split(",")[1:]]
+        if len(args) != len(inv["order"]):
+            raise AnchorLost("invocation %s!(%s, ..): %d arguments, %d expected" % (mi["macro"], inv["first"], len(args), len(inv["order"])))
+        plist = list(zip(inv["order"], args))
+    else:
+        plist = list(mi["params"].items()) if mi.get("params") else [(mi["param"], mi["arg"])]
+    for (pn, pa) in plist:
+        seg = re.sub(r"stringify!\(\s*\$%s\s*\)" % re.escape(pn), '"%s"' % pa, seg)
+        seg = re.sub(r"\$%s\b" % re.escape(pn), pa, seg)
+    sub = Src.__new__(Src)
+    sub.path = src.path + "#" + mi["macro"] + "!(" + ", ".join(pa for _, pa in plist) + ")"
+    sub.text = seg
+    sub.mask = code_mask(seg)
+    return sub
+
+
 def emit_type(t, log):
     src = get_src(t["source"])
+    if t.get("macro_inst"):
+        src = _macro_instance(src, t["macro_inst"])
     loc = src.find_type(t.get("kind", "struct"), t["name"])
     text = loc["text"]
     text, _ = r_attrs(text)
